@@ -321,7 +321,7 @@ def report_failure(ctx, sig, what, files=None, script=None):
     if ctx._nrep > 20:
         ctx.violations.append(dict(sig=sig, what=what, replay=None))
         return True
-    d = os.path.join(VERIF, "replays", "%s-%d-%d" % (ctx.prop, ctx.seed, ctx._nrep))
+    d = os.path.join(VERIF, "replays", "%s-%d-p%d-%d" % (ctx.prop, ctx.seed, os.getpid(), ctx._nrep))
     if os.path.exists(d):
         shutil.rmtree(d)
     os.makedirs(d)
